@@ -29,6 +29,7 @@ type Mutant struct {
 
 var Mutants = map[string][]Mutant{
 	"C01": {
+		{"second half of a split segment keeps the status node", "path_intersection.go", `\tl\.node = nil\n`, "", "E9.copy-drops-status-node"},
 		{"upper-neighbour check overwrites the re-sort flag", "path_intersection.go", `has = has \|\| addIntersections\(zs, queue, centre, square\.Upper, next\)`, "has = addIntersections(zs, queue, centre, square.Upper, next)", "E11.sticky-flag"},
 		{"clipping contour registered unclosed", "path_intersection.go", `qSeg = queue\.AddPathEndpoints\(q, qSeg, true\)`, "qSeg = queue.AddPathEndpoints(qs[i], qSeg, true)", "E9.clip-closed"},
 		{"absorbed segment keeps the other path's windings (same path)", "path_intersection.go", `\t\t\ts\.selfWindings \+= prev\.selfWindings\n\t\t\ts\.otherSelfWindings \+= prev\.otherSelfWindings\n`, "\t\t\ts.selfWindings += prev.selfWindings\n", "E9.absorb-conserves"},
